@@ -78,7 +78,7 @@ class C17(Prop):
         data = lang.gen_trace(rng, names + [extra], n)
         return {'formula': f, 'kind': kind, 'data': data, 'shape': shape, 'perm': rng.random(),
                 'feed': rng.choice(['disjoint', 'disjoint', 'repeat-frontier', 'frontier-only', 'staggered', 'idle-poll']),
-                'stagger': [rng.randint(0, 2) for _ in range(4)]}
+                'stagger': [rng.randint(0, 2) for _ in range(4)], 'structs': rng.random() < 0.2}
 
     def judge(self, case):
         v = Verdict()
@@ -118,7 +118,11 @@ class C17(Prop):
         stage = 'parse'
         got_value = False
         try:
-            m = drive.Mon(api, {'text': text, 'vars': declared})
+            sdm = {'text': text, 'vars': declared}
+            if kind.startswith('ct_on') and case.get('structs') and case.get('feed') != 'staggered':
+                sdm['structify'] = True             # inputs as (nested) fields of one object-typed variable
+                v.info['class:struct-inputs'] = 1
+            m = drive.Mon(api, sdm)
             if kind.endswith('pastified'):
                 stage = 'pastify'
                 m.pastify()
